@@ -8,7 +8,7 @@ func init() {
 	vRegister("zzC18Override", func(a []int) { zzC18Override(a[0], a[1]) })
 }
 
-const zzNK, zzNS = 2, 2 // organs, stages
+const zzNK, zzNS = 3, 2 // organs, stages (different, so that the two index ranges cannot be confused)
 
 func zzCropParam() CropParam {
 	p := CropParam{NRKOM: zzNK, NRENTW: zzNS, TempTyp: 1, NGEFKT: 1, YORGAN: 1}
@@ -16,14 +16,16 @@ func zzCropParam() CropParam {
 	p.INITCONCNBIOM, p.INITCONCNROOT, p.KcIni = vFloat("p_nbiom"), vFloat("p_nroot"), vFloat("p_kcini")
 	p.AboveGroundOrgans = []int{1}
 	p.CompartmentNames = []string{"leaf", "root"}
-	p.WORG = []float64{vFloat("p_worg", 0), vFloat("p_worg", 1)}
-	p.MAIRT = []float64{vFloat("p_mairt", 0), vFloat("p_mairt", 1)}
+	p.CompartmentNames = []string{"leaf", "stem", "root"}
+	p.WORG = []float64{vFloat("p_worg", 0), vFloat("p_worg", 1), vFloat("p_worg", 2)}
+	p.MAIRT = []float64{vFloat("p_mairt", 0), vFloat("p_mairt", 1), vFloat("p_mairt", 2)}
+	p.DAUERKULT = FeatureSwitch(vBool("p_permanent"))
 	for s := 0; s < zzNS; s++ {
 		st := CropDevelopmentStage{}
 		st.TSUM, st.BAS, st.VSCHWELL, st.DAYL, st.DLBAS = vFloat("p_tsum", s), vFloat("p_bas", s), vFloat("p_vschwell", s), vFloat("p_dayl", s), vFloat("p_dlbas", s)
 		st.DRYSWELL, st.LUKRIT, st.LAIFKT, st.WGMAX, st.Kc = vFloat("p_dryswell", s), vFloat("p_lukrit", s), vFloat("p_laifkt", s), vFloat("p_wgmax", s), vFloat("p_kc", s)
-		st.PRO = []float64{vFloat("p_pro", s, 0), vFloat("p_pro", s, 1)}
-		st.DEAD = []float64{vFloat("p_dead", s, 0), vFloat("p_dead", s, 1)}
+		st.PRO = []float64{vFloat("p_pro", s, 0), vFloat("p_pro", s, 1), vFloat("p_pro", s, 2)}
+		st.DEAD = []float64{vFloat("p_dead", s, 0), vFloat("p_dead", s, 1), vFloat("p_dead", s, 2)}
 		p.CropDevelopmentStages = append(p.CropDevelopmentStages, st)
 	}
 	return p
@@ -32,7 +34,16 @@ func zzCropParam() CropParam {
 func zzApply(p *CropParam) (*GlobalVarsMain, *CropSharedVars) {
 	g := new(GlobalVarsMain)
 	l := new(CropSharedVars)
-	g.AKF = NewDualType(1, 1)
+	// third crop of the rotation, preceded by an arbitrary crop: the reader keeps the previous
+	// N concentrations only for a permanent crop following itself
+	g.AKF = NewDualType(2, 1)
+	g.FRUCHT[2] = CropType(vInt("crop_now"))
+	g.FRUCHT[1] = CropType(vInt("crop_before"))
+	g.GEHOB = vFloat("old_gehob")
+	g.WUGEH = vFloat("old_wugeh")
+	for k := 0; k < zzNK; k++ {
+		g.WORG[k] = vFloat("old_worg", k)
+	}
 	g.INTWICK = NewDualType(0, 1)
 	zzR_ApplyCropParam("PARAM.X", l, g, p)
 	return g, l
@@ -128,6 +139,36 @@ func zzC18Override(key, idx int) {
 		applied = zzSameCrop(gA, lA, gB, lB)
 	}
 	vAssert("C18.override_equals_file_edit_or_is_rejected_as_a_whole", applied || rejected)
+	// a value well inside the documented range (and stage/organ indexes that exist) must be applied
+	valid := false
+	switch {
+	case key == 0:
+		valid = v >= 1 && v <= 99
+	case key == 1:
+		valid = v >= -20 && v <= 40
+	case key == 2:
+		valid = v >= 1 && v <= 19
+	case key == 3 || key == 4:
+		valid = v >= 0.01 && v <= 0.9
+	case key == 5 || key == 6:
+		valid = v >= 1 && v <= 90
+	case key == 10:
+		valid = v >= 1 && v <= 9000
+	case key == 11:
+		valid = v >= -5 && v <= 35
+	case key == 12 || key == 17 || key == 18:
+		valid = v >= 1 && v <= 90
+	case key == 13 || key == 14:
+		valid = v >= -20 && v <= 20
+	case key == 15 || key == 16 || key == 19:
+		valid = v >= 0.1 && v <= 0.9
+	default:
+		valid = v >= 0.1 && v <= 0.9
+	}
+	if valid {
+		vCover("C18.cover_valid_value")
+		vAssert("C18.valid_override_is_applied", applied)
+	}
 	if applied && !rejected {
 		vCover("C18.cover_override_applied")
 	}
